@@ -51,8 +51,7 @@ type shardOut struct {
 	Samples    []interface{}
 	Incomplete string
 	Outcomes   map[string]int
-
-	perSig map[string]int
+	PerSig     map[string]int // violating cases per signature (all of them, not only the listed ones)
 }
 
 func (o *shardOut) violate(rank int, sig, desc string, replay interface{}) {
@@ -62,11 +61,11 @@ func (o *shardOut) violate(rank int, sig, desc string, replay interface{}) {
 // violateSeq records a violating case; the description is only rendered for the few cases that are listed.
 func (o *shardOut) violateSeq(rank int, sig string, render func() (string, interface{}), job *treeJob, syms []int) {
 	o.Counters["violating_cases"]++
-	if o.perSig == nil {
-		o.perSig = map[string]int{}
+	if o.PerSig == nil {
+		o.PerSig = map[string]int{}
 	}
-	o.perSig[sig]++
-	if o.perSig[sig] > 4 {
+	o.PerSig[sig]++
+	if o.PerSig[sig] > 4 {
 		o.Counters["violations_not_listed"]++
 		return
 	}
@@ -978,6 +977,7 @@ func main() {
 	files, errs, outs := lib.RunShards(nShards, lib.Root+"/.build/c13/shards")
 	var all []viol
 	outcomes := map[string]int{}
+	perSig := map[string]int{}
 	var concSamples []interface{}
 	for i, f := range files {
 		if errs[i] != nil {
@@ -1003,6 +1003,9 @@ func main() {
 		}
 		for k, v := range so.Outcomes {
 			outcomes[k] += v
+		}
+		for k, v := range so.PerSig {
+			perSig[k] += v
 		}
 		if so.Incomplete != "" {
 			rep.Incomplete = so.Incomplete
@@ -1037,6 +1040,7 @@ func main() {
 	rep.Coverage["executions"] = rep.Counter("conc_executions")
 	rep.Coverage["distinct_outcomes"] = rep.Counter("conc_distinct_histories")
 	rep.Coverage["conc_outcome_kinds"] = outcomes
+	rep.Coverage["violating_cases_by_signature"] = perSig
 	rep.Coverage["conc_scenarios_detail"] = concSamples
 	rep.Coverage["race_pass"] = map[string]interface{}{"scenarios": rr.Scenarios, "iterations": rr.Iterations, "reports": len(rr.Reports), "signatures": raceSigs, "seconds": rr.Seconds, "error": rr.Err}
 	rep.Coverage["exhaustive"] = rep.Incomplete == ""
